@@ -289,6 +289,22 @@ def _r3(ctx, md, sym):
               "potential energy reported is molecule.Etot", f"potential energy reported is `{norm(ret.value)}`")
 
 
+def _helper_of_allowed(repo, q):
+    """a method whose only callers (self.<name>(...) anywhere in the MD modules) are allowed mutators is a helper of those mutators:
+    its writes are placed in the callers' event order by StepEvents inlining (R1), so the inventory accepts it"""
+    name = q.split(".")[-1]
+    callers = set()
+    for rel in (MD, NAD):
+        m = repo.mod(rel)
+        for cq, cf in m.functions.items():
+            for c in calls_in(cf):
+                if callee_attr(c) == name and isinstance(c.func, ast.Attribute) and norm(c.func.value) == "self" and m.qualname_of(c) == cq:
+                    callers.add(cq)
+    if callers and all(c in ALLOWED_MUTATORS for c in callers):
+        return sorted(callers)
+    return None
+
+
 def _r4(ctx, repo):
     n = 0
     for rel in (MD, NAD):
@@ -311,8 +327,9 @@ def _r4(ctx, repo):
                 if how == "assign" and isinstance(node.value, ast.Constant) and node.value.value is None:
                     continue
                 n += 1
-                ctx.check(q in ALLOWED_MUTATORS, "R4", m, node, q, node,
-                          f"write to molecule.{attr} in {q}: {ALLOWED_MUTATORS.get(q)}",
+                helper_of = None if q in ALLOWED_MUTATORS else _helper_of_allowed(repo, q)
+                ctx.check(q in ALLOWED_MUTATORS or helper_of is not None, "R4", m, node, q, node,
+                          f"write to molecule.{attr} in {q}: {ALLOWED_MUTATORS.get(q) or 'helper called only from ' + ', '.join(helper_of or [])}",
                           f"`{short(node, 70)}` writes molecule.{attr} outside the integrator / documented velocity controls "
                           f"(breaks the symplectic step or the momentum bookkeeping)")
     if n < 25:
